@@ -133,8 +133,14 @@ ArityOK(d, ap) == IF d.va THEN Len(ap) >= Len(d.params) ELSE Len(ap) = Len(d.par
 \*                not be replaced again (in its own hide set) and that was not hidden at the call
 \*   vaoptempty   __VA_OPT__ was dropped although a variable argument was written (it has no
 \*                tokens after replacement), or the macro has no named parameter
-\*   nestedempty  # applied to the (empty) argument of an invocation `M ( )` that was replaced
-\*                while an argument of another invocation was being replaced
+\*   strmissing   # applied to a parameter for which no argument was written: __VA_ARGS__ when the
+\*                variable arguments are omitted, or the parameter of an invocation `M ( )` that
+\*                is replaced while an argument of another invocation is being replaced
+\*   pasteempty   ## whose left operand is a parameter with an empty argument (placemarker), the
+\*                right operand is not empty and tokens precede the left operand
+\*   hidearg      an invocation of a function-like macro M is replaced while an argument of an
+\*                enclosing invocation of M is being replaced, other than directly in an argument
+\*                of a source-line invocation of M
 \*   strva        # applied to __VA_ARGS__ holding two or more arguments
 R(ts, ev) == [ts |-> ts, ev |-> ev]
 Cons(T, r) == [ts |-> <<T>> \o r.ts, ev |-> r.ev]
@@ -146,19 +152,21 @@ ArgPaint(D, hs, ts) ==
                         /\ ts[i].t \in ts[i].hs /\ ts[i].t \notin hs
 
 (***************************************************************************)
-(* Expand(D, ts, lvl): complete macro replacement of ts under the macro    *)
-(* table D; lvl = 0 for a source line, > 0 inside the replacement of an    *)
-(* argument.  Subst: substitution of the arguments cx.ap into the          *)
-(* replacement list `is` of cx.d; os accumulates the result, the hide set  *)
-(* cx.hs is added at the end.  cx.empty: the invocation was `M ( )`.       *)
+(* Expand(D, ts, encl): complete macro replacement of ts under the macro   *)
+(* table D; encl = the function-like macros whose arguments are being      *)
+(* replaced around ts (<<>> for a source line).  Subst: substitution of    *)
+(* the arguments cx.ap into the replacement list `is` of macro cx.m = cx.d;*)
+(* os accumulates the result, the hide set cx.hs is added at the end.      *)
+(* cx.empty: the invocation was `M ( )`.                                   *)
 (***************************************************************************)
+InSeq(x, q) == \E i \in 1..Len(q) : q[i] = x
 RECURSIVE Expand(_, _, _), Subst(_, _, _, _, _)
 Subst(D, is, cx, os, ev) ==
   IF is = <<>> THEN R(HsAdd(cx.hs, os), ev)
   ELSE LET h == Head(is) r == Tail(is) d == cx.d ap == cx.ap IN
     IF h = "#" /\ d.fn /\ r # <<>> /\ IsParam(d, Head(r))
       THEN Subst(D, Tail(r), cx, Append(os, Stringize(Select(d, ap, Head(r)))),
-                 ev \cup Ev(cx.lvl > 0 /\ cx.empty, "nestedempty")
+                 ev \cup Ev((cx.encl # <<>> /\ cx.empty) \/ (Head(r) = "__VA_ARGS__" /\ Len(ap) <= Len(d.params)), "strmissing")
                     \cup Ev(Head(r) = "__VA_ARGS__" /\ Len(ap) > Len(d.params) + 1, "strva"))
     ELSE IF h = "##" /\ r # <<>> /\ Head(r) = "__VA_ARGS__" /\ d.va /\ os # <<>> /\ Last(os).t = ","
       \* GNU extension (documented, and what interrogate says it follows): `, ## __VA_ARGS__`
@@ -174,34 +182,36 @@ Subst(D, is, cx, os, ev) ==
       THEN LET a == Select(d, ap, h) IN          \* operand of ##: not macro-expanded
            IF a = <<>>                           \* placemarker ## rhs = rhs (unexpanded)
            THEN (IF Len(r) >= 2 /\ IsParam(d, r[2])
-                 THEN Subst(D, Tail(Tail(r)), cx, os \o Select(d, ap, r[2]), ev)
-                 ELSE Subst(D, Tail(r), cx, os, ev))
+                 THEN Subst(D, Tail(Tail(r)), cx, os \o Select(d, ap, r[2]),
+                            ev \cup Ev(os # <<>> /\ Select(d, ap, r[2]) # <<>>, "pasteempty"))
+                 ELSE Subst(D, Tail(r), cx, os, ev \cup Ev(os # <<>>, "pasteempty")))
            ELSE Subst(D, r, cx, os \o a, ev)
     ELSE IF h = "__VA_OPT__" /\ d.va /\ r # <<>> /\ Head(r) = "(" /\ MatchS(r, 1, 0) # 0
       THEN LET close == MatchS(r, 1, 0)
-               va == Expand(D, VaArgs(d, ap), cx.lvl + 1)       \* C++20 [cpp.subst]: F(EMP) has no variable argument
+               va == Expand(D, VaArgs(d, ap), Append(cx.encl, cx.m))       \* C++20 [cpp.subst]: F(EMP) has no variable argument
            IN IF HasMarker(va.ts) THEN R(<<Tok("$M")>>, ev)
               ELSE IF va.ts # <<>>
               THEN Subst(D, SubSeq(r, 2, close - 1) \o SubSeq(r, close + 1, Len(r)), cx, os, ev)
               ELSE Subst(D, SubSeq(r, close + 1, Len(r)), cx, os,
                          ev \cup Ev(Len(ap) > Len(d.params) \/ Len(d.params) = 0, "vaoptempty"))
     ELSE IF IsParam(d, h)
-      THEN LET a == Expand(D, Select(d, ap, h), cx.lvl + 1) IN      \* argument completely replaced in isolation
-           Subst(D, r, cx, os \o a.ts, ev \cup a.ev \cup Ev(ArgPaint(D, cx.hs, a.ts), "argpaint"))
+      THEN LET a == Expand(D, Select(d, ap, h), Append(cx.encl, cx.m)) IN      \* argument completely replaced in isolation
+           IF HasMarker(a.ts) THEN R(<<Last(a.ts)>>, ev)             \* no value: the whole line has none
+           ELSE Subst(D, r, cx, os \o a.ts, ev \cup a.ev \cup Ev(ArgPaint(D, cx.hs, a.ts), "argpaint"))
     ELSE Subst(D, r, cx, Append(os, Tok(h)), ev)
 
-Expand(D, ts, lvl) ==
+Expand(D, ts, encl) ==
   IF ts = <<>> THEN R(<<>>, {})
   ELSE LET T == Head(ts) rest == Tail(ts) IN
     IF T.c = "m" THEN R(<<T>>, {})
-    ELSE IF T.c # "i" \/ T.t \notin DOMAIN D THEN Cons(T, Expand(D, rest, lvl))
+    ELSE IF T.c # "i" \/ T.t \notin DOMAIN D THEN Cons(T, Expand(D, rest, encl))
     ELSE IF T.t \in T.hs
-      THEN WithEv(Ev(D[T.t].fn /\ rest # <<>> /\ Head(rest).t = "(", "fnblock"), Cons(T, Expand(D, rest, lvl)))
+      THEN WithEv(Ev(D[T.t].fn /\ rest # <<>> /\ Head(rest).t = "(", "fnblock"), Cons(T, Expand(D, rest, encl)))
     ELSE LET d == D[T.t] IN
       IF ~d.fn
-      THEN LET s == Subst(D, d.body, [d |-> d, ap |-> <<>>, hs |-> T.hs \cup {T.t}, lvl |-> lvl, empty |-> FALSE], <<>>, {})
-           IN WithEv(s.ev, Expand(D, s.ts \o rest, lvl))
-      ELSE IF rest = <<>> \/ Head(rest).t # "(" THEN Cons(T, Expand(D, rest, lvl))
+      THEN LET s == Subst(D, d.body, [m |-> T.t, d |-> d, ap |-> <<>>, hs |-> T.hs \cup {T.t}, encl |-> encl, empty |-> FALSE], <<>>, {})
+           IN WithEv(s.ev, Expand(D, s.ts \o rest, encl))
+      ELSE IF rest = <<>> \/ Head(rest).t # "(" THEN Cons(T, Expand(D, rest, encl))
       ELSE LET close == MatchParen(rest, 1) IN
         IF close = 0 THEN R(<<Tok("$U")>>, {})
         ELSE LET inner == SubSeq(rest, 2, close - 1)
@@ -209,12 +219,12 @@ Expand(D, ts, lvl) ==
                  ap    == IF Len(d.params) = 0 /\ inner = <<>> THEN <<>> ELSE raw
                  after == SubSeq(rest, close + 1, Len(rest))
                  lost  == T.hs \ rest[close].hs       \* replacements left while collecting the arguments
-                 s     == Subst(D, d.body, [d |-> d, ap |-> ap, hs |-> (T.hs \cap rest[close].hs) \cup {T.t},
-                                            lvl |-> lvl, empty |-> inner = <<>>], <<>>, {})
+                 s     == Subst(D, d.body, [m |-> T.t, d |-> d, ap |-> ap, hs |-> (T.hs \cap rest[close].hs) \cup {T.t},
+                                            encl |-> encl, empty |-> inner = <<>>], <<>>, {})
              IN IF ~ArityOK(d, ap) THEN R(<<Tok("$A")>>, {})
                 ELSE IF lost # {} /\ Reach(D, {s.ts[i].t : i \in 1..Len(s.ts)}) \cap lost # {}
                   THEN R(<<Tok("$X")>>, {})
-                ELSE WithEv(s.ev, Expand(D, s.ts \o after, lvl))
+                ELSE WithEv(s.ev \cup Ev(InSeq(T.t, encl) /\ encl # <<T.t>>, "hidearg"), Expand(D, s.ts \o after, encl))
 
 (***************************************************************************)
 (* The state machine: one step per source line.                            *)
@@ -255,7 +265,7 @@ PopMacro(m) ==
   /\ out' = Append(out, NoOut)
 
 Text(tokens) ==
-  /\ out' = Append(out, Expand(defs, Toks(tokens), 0))
+  /\ out' = Append(out, Expand(defs, Toks(tokens), <<>>))
   /\ UNCHANGED <<defs, pushStack>>
 
 (***************************************************************************)
